@@ -94,6 +94,7 @@ from hippolyzer.lib.base import objects as objmod
 from hippolyzer.lib.proxy.vocache import RegionViewerObjectCache
 
 from hmc.core import HarnessError, Part, Run, pmap
+from hmc.introspect import IntrospectionError, adapter_child, priv, template_members
 
 LEVEL = "exploration"
 
@@ -1003,12 +1004,18 @@ def _work_history(item: Tuple[int, str]):
 
 # ------------------------------------------------------------------------------------------- F: encode histories
 def _leaf_spec(spec: Any) -> Any:
-    if isinstance(spec, se.OptionalFlagged):
-        spec = spec._ser_spec
-    seen = 0
-    while isinstance(spec, se.Adapter) and getattr(spec, "_child_spec", None) is not None and seen < 8:
-        spec = spec._child_spec
-        seen += 1
+    try:
+        if isinstance(spec, se.OptionalFlagged):
+            spec = priv(spec, "_ser_spec", "spec", index=-1)
+        seen = 0
+        while isinstance(spec, se.Adapter) and seen < 8:
+            child = adapter_child(spec)
+            if child is None:
+                break
+            spec = child
+            seen += 1
+    except IntrospectionError:
+        pass
     return spec
 
 
@@ -1052,7 +1059,7 @@ def foreign_failures() -> List[Tuple[str, Any, Any]]:
 def failing_edits(d: Dict[str, Any]) -> Dict[str, Dict[str, Any]]:
     """op name -> edited copy of d on which template.serialize raises after having written at least one byte."""
     out: Dict[str, Dict[str, Any]] = {}
-    for member, spec in SER.TEMPLATE._template_spec.items():
+    for member, spec in template_members(SER.TEMPLATE):
         for kind, bad in bad_values_for(spec):
             dd = dict(d)
             dd[member] = bad
